@@ -779,7 +779,7 @@ def gen_EngineLife(repo):
         stm = [_norm(x) for x in init.split(";") if x.strip()]
         L.append("def initLastCall%s : String := %s" % (tag, lean_str(stm[-1])))
         L.append("def initRngAssign%s : String := %s" % (tag, lean_str(dict(assigns).get("rng", ""))))
-        assigned = [a for a, _ in assigns]
+        assigned = [a for a, _ in assigns] + re.findall(r"this->(\w+)\s*\.\s*(?:clear|resize)\s*\(", init)
         for h in helpers:
             if not re.search(r"\b%s\s*\(" % h, init):
                 raise AnchorLost("%s::Init no longer calls %s" % (cls, h))
@@ -806,6 +806,14 @@ def gen_EngineLife(repo):
     L.append("def poissonMentions : Nat := %d" % sum(len(re.findall(r"poisson_distribution", _cpp(repo, f))) for f in (
         "engine.cpp", "SimulationAlgorithm3DBase.hpp", "SimulationAlgorithmGraphBase.hpp", "TauLeap3D.hpp", "TauLeapGraph.hpp",
         "Gillespie3D.hpp", "GillespieGraph.hpp", "Euler3D.hpp", "EulerGraph.hpp")))
+    # every statement of the engine sources that mentions the generator `rng` (seeded once in Init, advanced only by draws)
+    uses = []
+    for f in ("SimulationAlgorithm3DBase.hpp", "SimulationAlgorithmGraphBase.hpp", "Euler3D.hpp", "EulerGraph.hpp", "TauLeap3D.hpp",
+              "TauLeapGraph.hpp", "Gillespie3D.hpp", "GillespieGraph.hpp"):
+        for stmt in re.split(r"[;{}]", _cpp(repo, f)):
+            if re.search(r"\brng\b", stmt):
+                uses.append((f, _norm(stmt)))
+    L.append("def rngMentions : List (String × String) := %s" % lean_list(["(%s, %s)" % (lean_str(a), lean_str(b)) for a, b in uses]))
     for fn in ("engineexport_get_progress", "engineexport_get_nsamples", "engineexport_get_time"):
         b = cpp_function_body(eng, r"%s\s*\([^)]*\)\s*" % fn)
         L.append("def body_%s : String := %s" % (fn, lean_str(_norm(b))))
